@@ -303,28 +303,23 @@ Qed.
 Lemma renamed_ok h nm h2 : safe_nameb nm = true -> call_ok (mkCall MRenamed h [nm] (Some h2) [] []).
 Proof. intros H. split; cbn; [now rewrite H|discriminate]. Qed.
 
-Lemma pres_notify_name_change fuel : forall n, preserves (notify_name_change fuel n) (fun _ => True).
+Lemma pres_notify_name_change {A} fuel : forall n (k : M A) Q, preserves k Q -> preserves (notify_name_change fuel n k) Q.
 Proof.
-  induction fuel as [|k IH]; intros n; cbn [notify_name_change]; [apply pres_panic|].
+  induction fuel as [|f IH]; intros n k Q Hk; cbn [notify_name_change]; [apply pres_panic|].
   eapply pres_bind; [apply pres_the_node|intros p Hp].
-  eapply pres_bind with (Q := fun _ => True).
-  - unfold node_ok in Hp. revert Hp. generalize (pn_refs p) as l.
-    induction l as [|[r nm] rest IHl]; intros Hp; [apply pres_ret; exact I|].
-    inversion Hp as [|x l' Hx Hrest]; subst; cbn in Hx.
+  unfold node_ok in Hp. revert Hp. generalize (pn_refs p) as l.
+  induction l as [|[r nm] rest IHl]; intros Hp.
+  - generalize (pn_kids p) as kids. induction kids as [|[nm c] rest IHk]; [exact Hk|]. apply IH. exact IHk.
+  - inversion Hp as [|x l' Hx Hrest]; subst; cbn in Hx.
     eapply pres_bind; [apply pres_the_ref|intros fr _].
     destruct (0 <? fr_refs fr)%Z; [|apply IHl; exact Hrest].
     eapply pres_bind; [apply pres_incref|intros _ _].
+    apply pres_with_defer; [apply pres_dec_ref_|].
     destruct (fr_parent fr); [|apply pres_panic].
     eapply pres_bind; [apply pres_the_ref|intros pfr _].
     eapply pres_bind; [apply pres_backend, renamed_ok; exact Hx|intros _ _].
-    eapply pres_bind; [apply IHl; exact Hrest|intros hs _]. apply pres_ret; exact I.
-  - intros h1 _. eapply pres_bind with (Q := fun _ => True); [|intros h2 _; apply pres_ret; exact I].
-    generalize (pn_kids p) as l. induction l as [|[nm c] rest IHl]; [apply pres_ret; exact I|].
-    eapply pres_bind; [apply IH|intros a _]. eapply pres_bind; [exact IHl|intros b _]. apply pres_ret; exact I.
+    apply IHl; exact Hrest.
 Qed.
-
-Lemma pres_dec_all l : preserves (dec_all l) (fun _ => True).
-Proof. induction l as [|r t IH]; cbn [dec_all]; [apply pres_ret; exact I|]. eapply pres_bind; [apply pres_dec_ref_|intros _ _; exact IH]. Qed.
 
 Lemma pres_add_path_node_for n name c : preserves (add_path_node_for n name c) (fun _ => True).
 Proof.
@@ -351,7 +346,7 @@ Proof.
     apply pres_ret; exact I.
   - intros o _. destruct o; [|apply pres_ret; exact I].
     eapply pres_bind; [apply pres_add_path_node_for|intros _ _].
-    eapply pres_bind; [apply pres_gets|intros fuel _]. eapply pres_bind; [apply pres_notify_name_change|intros held _; apply pres_dec_all].
+    eapply pres_bind; [apply pres_gets|intros fuel _]. apply pres_notify_name_change. apply pres_ret; exact I.
 Qed.
 
 (** ---- walking ---- *)
